@@ -56,21 +56,34 @@ def run(rep, tier, seed):
             stmts = [define, f"x[{idx}]"]
             reqs.append({"id": len(reqs), "mode": "session", "stmts": stmts,
                          "opts": {"store": True, "names": ["x"], "arm": True}})
-            meta.append((cs, kind, ikind, vals))
+            meta.append((cs, kind, ikind, vals, ""))
+            # the same read with the index taken from VARIABLES (scalar, vector, mask and range values held by names)
+            if j == 0 and any(f["f"] != "a" for f in ([cs["f1"]] + ([cs["f2"]] if cs["nd"] == 2 else []))):
+                pre = []; parts = []
+                for q, f in enumerate([cs["f1"]] + ([cs["f2"]] if cs["nd"] == 2 else [])):
+                    if f["f"] == "a": parts.append(":")
+                    else:
+                        pre.append(f"i{q + 1} := {render_form(f, ikind, excl if q == 0 else not excl)}"); parts.append(f"i{q + 1}")
+                reqs.append({"id": len(reqs), "mode": "session", "stmts": [define] + pre + [f"x[{','.join(parts)}]"],
+                             "opts": {"store": True, "names": ["x"], "arm": True}})
+                meta.append((cs, kind, ikind, vals, "/ixvar"))
     log(f"[C03] replaying {len(reqs)} cases on the interpreter")
     outs = execpool.run_requests(reqs, nworkers=16, timeout=120)
     arms = set(); free = 0; exact_ok = 0; reject_ok = 0
-    for req, (resp, oc), (cs, kind, ikind, vals) in zip(reqs, outs, meta):
-        sig = cs["sig"]
+    unbuildable = 0
+    for req, (resp, oc), (cs, kind, ikind, vals, variant) in zip(reqs, outs, meta):
+        sig = cs["sig"] + variant
         replay = {"stmts": req["stmts"], "case": cs, "kind": kind}
         if oc != "ok" or "steps" not in (resp or {}):
             rep.fail(sig + "/host-" + oc, f"{req['stmts']} -> interpreter process {oc}", replay); continue
         st = resp["steps"]
         if st[0].get("r") != "ok":
             rep.fail("C03/setup/" + kind, f"operand could not be built: {req['stmts'][0]} -> {st[0]}", replay); continue
-        rd = st[1]
+        if any(x.get("r") != "ok" for x in st[1:-1]):
+            unbuildable += 1; continue          # the index value itself cannot be built as a variable (e.g. an empty range)
+        rd = st[-1]
         if rd.get("p") != "ok" or not (rd.get("shape") and rd["shape"][0].startswith("MechCode")):
-            rep.fail(sig + "/noparse", f"{req['stmts'][1]} did not parse as code: {rd.get('p')} {rd.get('shape')}", replay); continue
+            rep.fail(sig + "/noparse", f"{req['stmts'][-1]} did not parse as code: {rd.get('p')} {rd.get('shape')}", replay); continue
         arms.add(rd.get("arm"))
         # purity: x unchanged after the read (also after a failing read)
         xs = rd.get("store", {}).get("x")
@@ -104,7 +117,7 @@ def run(rep, tier, seed):
     rep.cov.update({"states": t.generated, "transitions": t.generated - 1 if t.generated else 0, "distinct_states": t.distinct,
                     "traces_validated_against_impl": len(reqs), "cases_emitted": len(cases),
                     "cases_replayed": len(reqs), "exact_matched": exact_ok, "rejects_matched": reject_ok,
-                    "free_outcomes": free, "arms_hit": len(arms), "exhaustive": True,
+                    "free_outcomes": free, "index_variable_unbuildable": unbuildable, "arms_hit": len(arms), "exhaustive": True,
                     "rule": "every (shape, index form pair, index values incl. 0 and n+1, masks of right and wrong length) of the bounded MechIndex model; each replayed for f64 and a rotating element kind / index kind"})
     rep.add_samples([{"stmts": r["stmts"], "exp": m[0]["exp"], "sig": m[0]["sig"]} for r, m in zip(reqs, meta)])
     rep.assumptions += ["TLC 1.8.0", "harness projection (harness/src/project.rs)", "renderer lib/render.py",
